@@ -987,6 +987,24 @@ fn main() {
         out
     });
 
+    // ---- phase 2a': region-local alternative-witness search (vgad::laws; thorough tier): one case
+    // per (curve, operation) with k <= 12 — limb range checks of the foreign chips, byte and
+    // window tables — last 32 regions of the circuit
+    if tier.is_thorough() {
+        let mut seen: std::collections::HashSet<String> = Default::default();
+        let lcases: Vec<(String, Case)> = fcases
+            .iter()
+            .filter(|(_, (c, _))| kof(c).unwrap() <= 12 && seen.insert(format!("{:?}/{}", c.cv, c.op())))
+            .map(|(k, (c, _))| (format!("{}#laws", k.split('@').next().unwrap_or(k)), c.clone()))
+            .collect();
+        let cfg = vgad::laws::Cfg { max_combinations: 100_000, max_real_runs: 4, ..Default::default() };
+        cx.run_cases("laws", &lcases, |c| {
+            let mut out = CaseOut::batch();
+            vgad::laws::explore_all(c, kof(c).unwrap(), &cfg, 32, &mut out);
+            out
+        });
+    }
+
     // ---- phase 2b: 1 deviation, table-only mode (Jubjub: the witness code of the native chip
     // panics on most propagated faults, so the gates themselves are probed here)
     let tfaults: Vec<_> = all_faults.iter().filter(|(n, _)| if tier.is_thorough() { ["+1", "zero", "neg", "random"].contains(n) } else { ["+1", "zero"].contains(n) }).cloned().collect();
